@@ -11,7 +11,7 @@
 
 enum { E_NOP, E_THROW, E_LIBTHROW, E_TRY, E_CATCH, E_END, E_CALL, E_RET, E_GARBAGE, E_NOPS };
 static const OpInfo OPS[E_NOPS] = {
-  [E_NOP] = { "nop", 0 },
+  [E_NOP] = { "nop", 1 },      /* flags: 1 = a self-contained construct that throws a stack object and requires the handler to be bound to it */
   [E_THROW] = { "throw", 2 },  /* kind; flags: 1 = throw the twin (an equal but distinct object), 2 = a message argument whose Show
                                   handles an exception of its own, 4 = the collector's next registration collects */
   [E_LIBTHROW] = { "libthrow", 1 },
@@ -60,13 +60,13 @@ static int parse_stmt(Prog* p, OpStream* s, int depth) {
   TNode* t = &p->n[p->nn]; int idx = p->nn++;
   memset(t, 0, sizeof *t); t->id = idx;
   switch (o->code) {
-    case E_NOP: t->kind = S_NOP; break;
+    case E_NOP: t->kind = S_NOP; t->arg = (int)(o->a[0] & 1); break;
     case E_THROW: t->kind = S_THROW; t->arg = (int)(((o->a[0] % NKIND) + NKIND) % NKIND) | ((o->a[1] & 1) ? 8 : 0); t->f[0] = (int)(o->a[1] & 6); break;
     case E_GARBAGE: t->kind = S_GARBAGE; t->arg = 1 + (int)(((o->a[0] % 8) + 8) % 8); t->f[0] = (int)(((o->a[1] % NKIND) + NKIND) % NKIND); break;
     case E_LIBTHROW: t->kind = g_nolib ? S_THROW : S_LIBTHROW; t->arg = (int)(((o->a[0] % NKIND) + NKIND) % NKIND); break;
     case E_CALL: {
       t->kind = S_CALL;
-      if (depth > 12) { t->kind = S_NOP; break; }
+      if (depth > 40) { t->kind = S_NOP; break; }
       int first; int n = parse_block(p, s, &first, STOP_RET, depth + 1);
       t = &p->n[idx]; t->body = first; t->nbody = n;
       if (s->pos < s->n && s->ops[s->pos]->code == E_RET) s->pos++;
@@ -75,7 +75,7 @@ static int parse_stmt(Prog* p, OpStream* s, int depth) {
       t->kind = S_TRY;
       int mask = (int)(o->a[0] & 63), ar = (int)(((o->a[1] % 4) + 4) % 4);
       t->lexical = (int)(o->a[2] & 1);
-      if (depth > 12) { t->kind = S_NOP; break; }
+      if (depth > 40) { t->kind = S_NOP; break; }
       /* filters: up to `ar` distinct kinds taken from the mask bits in order, arity 0 = catch all */
       int ks[NKIND], nk = 0; for (int k = 0; k < NKIND; k++) if (mask & (1 << k)) ks[nk++] = k;
       /* never the same object twice: a Tuple's cursor is identity based, catch (e in A, A) would not terminate */
@@ -189,6 +189,19 @@ static void nested_construct(int k, const char* where) {
   if (got isnt KIND(k)) viol("C07", "C07:wrong-exception-bound", "construct inside %s: handler bound %s", where, got ? "another object" : "nothing");
   if (len(current(Exception)) != depth) viol("C07", "C07:depth-changed", "construct inside %s changed the nesting depth", where);
 }
+/* a stack object as the exception: still alive in the handler, which must be bound to that very object */
+struct XObj { int64_t k; };
+static var XObj = Cello(XObj);
+static void stack_object_construct(int id) {
+  var so = $(XObj, id);
+  size_t depth = len(current(Exception));
+  var got = NULL;
+  try { throw(so, "a stack object thrown by statement %i", $I(id)); } catch (e) { got = e; }
+  if (got isnt so) viol("C07", "C07:wrong-exception-bound", "a thrown stack object: the handler was bound to %s", got ? "another object" : "nothing");
+  if (((struct XObj*)so)->k != id) viol("C07", "C07:wrong-exception-bound", "the thrown stack object was modified");
+  if (len(current(Exception)) != depth) viol("C07", "C07:depth-changed", "construct with a stack exception object changed the nesting depth");
+  stat_add("exc.throw_stack_object", 1);
+}
 struct Shower { int64_t k; };
 static int Shower_Show(var self, var out, int pos) {
   struct Shower* s = self;
@@ -240,7 +253,7 @@ static void on_handler(TNode* t, var e) {
 
 /* one try construct whose body is BODY (a statement), in the current function */
 #define TRY_CONSTRUCT(P_, T_, EV_, BODY) do { \
-  size_t depth__##EV_ = len(current(Exception)); \
+  size_t depth__##EV_ = len(current(Exception)); stat_max("exc.max_open_try_blocks", (long)depth__##EV_ + 1); \
   switch ((T_)->nf) { \
     case 0:  try { BODY; } catch (EV_) { HANDLE(P_, T_, EV_); } break; \
     case 1:  try { BODY; } catch (EV_ in F0(T_)) { HANDLE(P_, T_, EV_); } break; \
@@ -294,7 +307,7 @@ static __attribute__((noinline)) void run_call(Prog* p, TNode* t) {
 static void run_stmt(Prog* p, int idx) {
   TNode* t = &p->n[idx];
   switch (t->kind) {
-    case S_NOP: act_emit(t_self, EV_STMT, t->id, 0); break;
+    case S_NOP: act_emit(t_self, EV_STMT, t->id, 0); if (t->arg & 1) stack_object_construct(t->id); break;
     case S_GARBAGE: act_emit(t_self, EV_STMT, t->id, 0); if (!g_nolib) { make_garbage(t->arg, t->f[0]); sim_scrub_stack(); } break;
     case S_THROW:
       act_emit(t_self, EV_THROW, t->id, t->arg); stat_add("exc.throw", 1);
@@ -431,7 +444,7 @@ static void gen_stmt(Plan* p, Rng* r, int tid, int depth, int* budget, int in_ha
   (*budget)--;
   if (depth == 0 && d >= 30 && d < 48 && rng_chance(r, 3, 4)) d = 70;     /* few bare throws at top level */
   if (d >= 24 && d < 30 && plan_env(p, "plainexc", 0) == 0) { int64_t g2 = rng_below(r, NKIND), g1 = rng_below(r, 8); plan_add(p, E_GARBAGE, tid, 0, g1, g2, 0, 0, 0, 0); return; }
-  if (d < 30 || depth >= 5 || *budget < 3) { plan_add(p, E_NOP, tid, 0, 0, 0, 0, 0, 0, 0); return; }
+  if (d < 30 || depth >= 5 || *budget < 3) { plan_add(p, E_NOP, tid, 0, (plan_env(p, "plainexc", 0) == 0 && rng_chance(r, 1, 5)) ? 1 : 0, 0, 0, 0, 0, 0); return; }
   if (d < 48) {
     int fl = 0;
     if (plan_env(p, "plainexc", 0) == 0) { int f1 = rng_chance(r, 1, 4) ? 1 : 0; int f2 = rng_chance(r, 1, 6) ? 2 : 0; int f4 = rng_chance(r, 1, 5) ? 4 : 0; fl = f1 | f2 | f4; }
@@ -447,6 +460,23 @@ static void gen_stmt(Plan* p, Rng* r, int tid, int depth, int* budget, int in_ha
   gen_block(p, r, tid, depth + 1, budget, 1);
   plan_add(p, E_END, tid, 0, 0, 0, 0, 0, 0, 0);
 }
+/* a tower: n try blocks open at once (each with its own filter), a throw at the top, handlers on the way down - the jump-buffer
+ * stack at depths that ordinary programs rarely reach */
+static void gen_tower(Plan* p, Rng* r, int tid, int n) {
+  for (int i = 0; i < n && p->nops < MAXOPS - 64; i++) {
+    int mask = rng_chance(r, 1, 4) ? 0 : (int)(1 + rng_below(r, 63));
+    int64_t y3 = 0, y2 = rng_below(r, 4);
+    plan_add(p, E_TRY, tid, 0, mask, y2, y3, 0, 0, 0);
+    if (rng_chance(r, 1, 3)) plan_add(p, E_NOP, tid, 0, 0, 0, 0, 0, 0, 0);
+  }
+  plan_add(p, E_THROW, tid, 0, rng_below(r, NKIND), 0, 0, 0, 0, 0);
+  for (int i = 0; i < n && p->nops < MAXOPS - 8; i++) {
+    plan_add(p, E_CATCH, tid, 0, 0, 0, 0, 0, 0, 0);
+    if (rng_chance(r, 1, 3)) plan_add(p, E_NOP, tid, 0, 0, 0, 0, 0, 0, 0);
+    if (rng_chance(r, 1, 8)) plan_add(p, E_THROW, tid, 0, rng_below(r, NKIND), 0, 0, 0, 0, 0);
+    plan_add(p, E_END, tid, 0, 0, 0, 0, 0, 0, 0);
+  }
+}
 static void gen_block(Plan* p, Rng* r, int tid, int depth, int* budget, int in_handler) {
   int n = (int)rng_below(r, depth == 0 ? 5 : 4) + (depth == 0 ? 1 : 0);
   for (int i = 0; i < n && *budget > 0 && p->nops < MAXOPS - 16; i++) gen_stmt(p, r, tid, depth, budget, in_handler);
@@ -460,6 +490,7 @@ static void exc_generate(Plan* p, Rng* r) {
   plan_env_set(p, "alloc.place", (int)rng_below(r, 3));
   for (int th = 0; th <= nth; th++) {
     int budget = 6 + (int)rng_below(r, 34);
+    if (plan_env(p, "plainexc", 0) == 0 && rng_chance(r, 1, 8)) { gen_tower(p, r, th, 6 + (int)rng_below(r, 30)); }
     gen_block(p, r, th, 0, &budget, 0);
   }
 }
